@@ -252,6 +252,7 @@ def setup_rule(fname, mode, present=None):
     for sh in shapes:
         shape_conds.append(z3.And([fields.has_key(n) if n in sh else z3.Not(fields.has_key(n)) for n in kinds]))
     ex.assumptions.append(z3.Or(shape_conds))
+    fields.closed = set(kinds)     # the rule engine binds exactly the fields named in the matched pattern
     ex._roots = [cfgv, tkv]
     return ex, fields, toks, [RefV(cfgv), RefV(tkv), RefV(fields)], cfgv, tkv
 
@@ -296,6 +297,30 @@ class Spec:
 SPECS = []
 
 
+def run_deep(f, *a):
+    """run f on a thread with a large stack (the executor recurses once per basic block of a path)"""
+    import sys
+    import threading
+    res = {}
+
+    def tgt():
+        sys.setrecursionlimit(1000000)
+        try:
+            res["v"] = f(*a)
+        except BaseException as e:  # noqa: BLE001
+            res["e"] = e
+    old = threading.stack_size(1 << 30)
+    try:
+        t = threading.Thread(target=tgt)
+        t.start()
+        t.join()
+    finally:
+        threading.stack_size(old)
+    if "e" in res:
+        raise res["e"]
+    return res.get("v")
+
+
 def spec(prop, name, about, tiers=("quick", "thorough"), finding=None):
     def deco(f):
         SPECS.append(Spec(prop, name, about, f, tiers, finding))
@@ -337,7 +362,11 @@ class Ctx:
                 continue
             if term is None:
                 continue
-            val = val_py(s.model().eval(term, model_completion=True))
+            mv = s.model().eval(term, model_completion=True)
+            if z3.is_string_value(mv):
+                self.probes[label] = "S:" + mv.as_string()
+                return
+            val = val_py(mv)
             try:
                 self.probes[label] = to_f64(val)
             except Exception:  # noqa: BLE001
@@ -416,7 +445,14 @@ def run_specs(prop, tier, only):
                 else:
                     p.status = "pass"
             except Unsupported as ex:
-                p.status, p.reason = "inconclusive", "translator refused: %s" % ex
+                p.states = ctx.paths
+                if ctx.failures:
+                    # a counterexample found before the enumeration stopped stands on its own (native replay decides)
+                    finalize_failures(p, ctx, replayer, tier)
+                    if p.status != "fail":
+                        p.status, p.reason = "inconclusive", "translator refused: %s; before that: %s" % (ex, p.reason[:300])
+                else:
+                    p.status, p.reason = "inconclusive", "translator refused: %s" % ex
             except z3.Z3Exception as ex:
                 p.status, p.reason = "inconclusive", "z3 error: %s" % ex
             p.wall = time.time() - t0
@@ -450,8 +486,11 @@ def validate_probes(probes, replayer):
     rec = replayer.replay("m_probe_all", [], release=False, raw=True)
     native = {}
     for line in (rec.get("output") or "").splitlines():
-        m = re.match(r"^PROBE (\S+) (\S+)$", line.strip())
+        m = re.match(r"^PROBE (\S+) (\S.*)$", line.strip())
         if m:
+            if m.group(2).startswith("S:"):
+                native[m.group(1)] = m.group(2)
+                continue
             try:
                 native[m.group(1)] = float(m.group(2))
             except ValueError:
@@ -462,6 +501,10 @@ def validate_probes(probes, replayer):
             continue
         n += 1
         w = native[label]
+        if isinstance(v, str) or isinstance(w, str):
+            if v != w:
+                bad.append((label, v, w))
+            continue
         if not (abs(v - w) <= 1e-9 * max(1.0, abs(w))):
             bad.append((label, v, w))
     p.queries = n
@@ -487,11 +530,19 @@ def finalize_failures(p, ctx, replayer, tier="quick"):
         p.status, p.finding_hit = "fail", True
         return
     recs, reproduced = [], False
-    for what, inp, rp in ctx.failures[:3]:
-        if rp is None:
-            continue
+    # replay up to four failures, different claims first
+    chosen, seen_claims = [], set()
+    for f in ctx.failures:
+        if f[2] is not None and f[0] not in seen_claims:
+            seen_claims.add(f[0])
+            chosen.append(f)
+    chosen += [f for f in ctx.failures if f[2] is not None and f not in chosen]
+    for what, inp, rp in chosen[:4]:
+        if reproduced and len(recs) >= 2:
+            break
         harness, values = rp
-        rec = [replayer.replay(harness, values, release=False), replayer.replay(harness, values, release=True)]
+        tmo = 30 if "does not terminate" in what else 120     # a native run that does not return is the witness of a hang
+        rec = [replayer.replay(harness, values, release=False, timeout=tmo), replayer.replay(harness, values, release=True, timeout=tmo)]
         recs.append({"claim": what, "harness": harness, "values": values, "runs": rec})
         if any(r.get("reproduced") for r in rec):
             reproduced = True
@@ -510,13 +561,13 @@ class Replayer:
     def __init__(self):
         self.rb = None
 
-    def replay(self, harness, values, release=False, raw=False):
+    def replay(self, harness, values, release=False, raw=False, timeout=120):
         import kani
         import specs_k
         if self.rb is None:
             self.rb = kani.ReplayBuild([h for h in specs_k.ALL])
             self.rb.prepare()
-        return self.rb.replay(harness, values, release=release, raw=raw)
+        return self.rb.replay(harness, values, release=release, raw=raw, timeout=timeout)
 
     def close(self):
         if self.rb:
